@@ -3,6 +3,7 @@ package main
 import (
 	"context"
 	"fmt"
+	"math"
 	"reflect"
 	"runtime"
 	"strconv"
@@ -14,6 +15,7 @@ import (
 	j2 "github.com/akramarenkov/cqos/v2/join"
 	"github.com/akramarenkov/cqos/v2/join/unite"
 	"github.com/akramarenkov/cqos/v2/limit"
+	"verifharness/internal/px"
 )
 
 func slicesStr(l [][]int) string {
@@ -398,9 +400,83 @@ func head(l []int, n int) []int {
 	return l
 }
 
+// What New makes of the timing options (through the hook VerifTiming, on disciplines created by
+// the real constructors): the timeout test uses exactly the Timeout that was asked for, and the
+// ticker period is what calcInterruptInterval (tied to the model by the pure family c10) says -
+// otherwise elements stay longer than Timeout*(1+1/floor(100/TimeoutInaccuracy)) (C10) or slices
+// are cut short before Timeout has passed (C09).
+func (b *bb) ctorTiming() {
+	before := b.fails()
+	timeouts := []time.Duration{time.Second, 100 * time.Millisecond, 1500 * time.Millisecond, 777777 * time.Microsecond, 40 * time.Millisecond, time.Duration(1+b.r.Intn(5000)) * time.Millisecond}
+	inaccs := []uint{0, 25, 30, 33, 15, 14, 11, 9, 50, 100, 1, uint(1 + b.r.Intn(100))}
+	for _, tmo := range timeouts {
+		for _, inacc := range inaccs {
+			norm := inacc
+			if norm == 0 {
+				norm = 25
+			}
+			for _, kind := range []string{"join v1", "join v2", "unite v2"} {
+				var gotT, gotI, wantI time.Duration
+				var err, werr error
+				switch kind {
+				case "join v1":
+					in := make(chan int)
+					wantI, werr = j1.VerifCalcInterruptInterval(tmo, norm)
+					var d *j1.Discipline[int]
+					d, err = j1.New(j1.Opts[int]{Ctx: context.Background(), Input: in, JoinSize: 3, Timeout: tmo, TimeoutInaccuracy: inacc})
+					if err == nil {
+						gotT, gotI = d.VerifTiming()
+						d.Stop()
+					}
+				case "join v2":
+					in := make(chan int)
+					wantI, werr = j2.VerifCalcInterruptInterval(tmo, norm)
+					var d *j2.Discipline[int]
+					d, err = j2.New(j2.Opts[int]{Input: in, JoinSize: 3, Timeout: tmo, TimeoutInaccuracy: inacc})
+					if err == nil {
+						gotT, gotI = d.VerifTiming()
+						close(in)
+						for range d.Output() {
+						}
+					}
+				default:
+					in := make(chan []int)
+					wantI, werr = unite.VerifCalcInterruptInterval(tmo, norm)
+					var d *unite.Discipline[int]
+					d, err = unite.New(unite.Opts[int]{Input: in, JoinSize: 3, Timeout: tmo, TimeoutInaccuracy: inacc})
+					if err == nil {
+						gotT, gotI = d.VerifTiming()
+						close(in)
+						for range d.Output() {
+						}
+					}
+				}
+				if (err == nil) != (werr == nil) {
+					b.fail("C10 constructor %s: New(Timeout %v, TimeoutInaccuracy %d) returned error %v, the interval calculation says %v", kind, tmo, inacc, err, werr)
+					continue
+				}
+				if err != nil {
+					continue
+				}
+				if gotT > tmo || gotI != wantI {
+					b.fail("C10 constructor %s: New(Timeout %v, TimeoutInaccuracy %d) works with the timeout %v and the ticker period %v (asked for: %v, period %v): an element can stay up to timeout + period = %v, more than Timeout*(1+1/floor(100/TimeoutInaccuracy)) = %v", kind, tmo, inacc, gotT, gotI, tmo, wantI, gotT+gotI, tmo+wantI)
+				}
+				if gotT < tmo {
+					b.fail("C09 constructor %s: New(Timeout %v, TimeoutInaccuracy %d) works with the timeout %v: a slice is cut short before Timeout has passed", kind, tmo, inacc, gotT)
+				}
+			}
+		}
+	}
+	b.leakProbe("disciplines of the constructor probe")
+	b.note("join", "ctor-timing", before)
+}
+
 func (b *bb) scenarioJoin() {
 	if b.cycle("join-rejected", 2) == 0 {
 		b.rejectedCtor()
+	}
+	if b.cycle("join-ctor-timing", 4) == 1 {
+		b.ctorTiming()
 	}
 	r := b.r
 	kind := []string{"join", "unite", "join"}[r.Intn(3)]
@@ -414,8 +490,19 @@ func (b *bb) scenarioJoin() {
 	var inputs [][]int
 	next := 1
 	cnt := r.Intn(25)
+	// the smallest sizes, with empty input slices among the others, every few runs
+	small := b.cycle("join-small-size", 4) == 2
+	if small {
+		kind, ver = "unite", "v2"
+		size = uint(1 + b.cycle("join-small-size-n", 2))
+		cnt = 6 + r.Intn(10)
+	}
 	for i := 0; i < cnt; i++ {
 		ln := 1
+		if small && i%3 == 1 {
+			inputs = append(inputs, []int{})
+			continue
+		}
 		if kind == "unite" {
 			switch r.Intn(6) {
 			case 0:
@@ -449,6 +536,13 @@ func (b *bb) scenarioJoin() {
 		var data [][]int
 		for _, o := range outs {
 			data = append(data, o.data)
+			if len(o.data) == 0 {
+				b.fail("C03 %s %s size=%d timeout=%v: an empty slice was delivered", kind, ver, size, to)
+				if kind == "unite" {
+					b.fail("C11 unite %s size=%d nocopy=%v timeout=%v: an empty output slice was delivered - an empty input slice must produce nothing (inputs %s)", ver, size, nocopy, to, slicesStr(inputs))
+				}
+				break
+			}
 		}
 		nc := 0
 		if nocopy {
@@ -498,6 +592,9 @@ func (b *bb) scenarioJoin() {
 			out = append(out, o.data...)
 			if len(o.data) == 0 {
 				b.fail("C03 timed %s %s: an empty slice was delivered", kind, ver)
+				if kind == "unite" {
+					b.fail("C11 timed unite %s size=%d: an empty output slice was delivered - an empty input slice must produce nothing", ver, size)
+				}
 			}
 			if kind == "join" && uint(len(o.data)) > size {
 				b.fail("C03 timed join: slice of %d > JoinSize %d", len(o.data), size)
@@ -986,7 +1083,7 @@ func (b *bb) scenarioLimit() {
 	before := b.fails()
 	r := b.r
 	q := uint64(1 + r.Intn(7))
-	pattern := []string{"stall-burst", "prefilled-short", "small", "trickle", "prefilled", "busy-consumer", "paused-consumer"}[b.cycle("limit", 7)]
+	pattern := []string{"stall-burst", "prefilled-short", "small", "trickle", "prefilled", "busy-consumer", "paused-consumer", "partial-burst"}[b.cycle("limit", 8)]
 	short := pattern == "prefilled-short"
 	if short {
 		pattern = "prefilled"
@@ -1011,6 +1108,15 @@ func (b *bb) scenarioLimit() {
 		interval = 20 * time.Millisecond
 		inCap = 8
 		n = (inCap + 1) + 8*int(q)
+	case "partial-burst":
+		// right after creation: fewer than Quantity elements, a gap much shorter than Interval, then
+		// far more than Quantity at once, a prompt consumer - the first portion is completed by
+		// the burst and the second one starts no earlier than Interval after creation (cumulative
+		// form of C04: at most Quantity elements have left before t0 + Interval)
+		q = uint64(3 + r.Intn(6))
+		interval = time.Duration(200+r.Intn(200)) * time.Millisecond
+		n = 4 * int(q)
+		inCap = n + 1
 	case "busy-consumer":
 		// data always available on an unbuffered input, a consumer that is far faster than the
 		// limit but spends a couple of milliseconds on every element, so that it is usually not
@@ -1023,6 +1129,12 @@ func (b *bb) scenarioLimit() {
 		q++
 		n = r.Intn(int(q))
 		interval = time.Duration(600+r.Intn(400)) * time.Millisecond
+		if (b.cycle("limit-huge", 2)+int(px.Seed()))%2 == 1 {
+			// "practically unlimited": quantities around and above MaxInt64 are valid rates, and
+			// whatever is written is fewer than Quantity elements
+			q = []uint64{math.MaxUint64, 1 << 63, math.MaxInt64, math.MaxUint64 - 1}[r.Intn(4)]
+			n = 5 + r.Intn(20)
+		}
 	case "prefilled":
 		if short {
 			// a short interval that does not divide 10 ms, many batches: a discipline that works
@@ -1047,10 +1159,19 @@ func (b *bb) scenarioLimit() {
 	}
 	cn := startCanary()
 	t0 := time.Now()
-	d, err := limit.New(limit.Opts[int]{Input: in, Limit: limit.Rate{Interval: interval, Quantity: q}})
+	var d *limit.Discipline[int]
+	var err error
+	func() {
+		defer func() {
+			if p := recover(); p != nil {
+				err = fmt.Errorf("panic: %v", p)
+			}
+		}()
+		d, err = limit.New(limit.Opts[int]{Input: in, Limit: limit.Rate{Interval: interval, Quantity: q}})
+	}()
 	if err != nil {
 		cn.lag()
-		b.fail("C12 limit.New: %v", err)
+		b.fail("C12 limit.New(Interval %v, Quantity %d, cap(Input) %d): %v - a valid rate is not served: nothing is forwarded, the output is never closed", interval, q, inCap, err)
 		return
 	}
 	// stall-burst: the silence is long (also in absolute terms), so that a discipline which lets a
@@ -1067,6 +1188,9 @@ func (b *bb) scenarioLimit() {
 			}
 			if pattern == "trickle" && i%3 == 0 {
 				time.Sleep(interval / 4)
+			}
+			if pattern == "partial-burst" && i == 1+int(q)/2 {
+				time.Sleep(interval / 10)
 			}
 			if pattern == "stall-burst" && i == int(q) {
 				time.Sleep(stall)
@@ -1194,7 +1318,12 @@ func (b *bb) joinSharedV1() {
 		in := make(chan int, 8)
 		var ds [2]*j1.Discipline[int]
 		for i := range ds {
-			d, err := j1.New(j1.Opts[int]{Ctx: context.Background(), Input: in, JoinSize: uint(2 + b.r.Intn(4))})
+			// (every other round with a timeout that never fires: the timed loop is another function)
+			var tmo time.Duration
+			if round%2 == 1 {
+				tmo = time.Minute
+			}
+			d, err := j1.New(j1.Opts[int]{Ctx: context.Background(), Input: in, JoinSize: uint(2 + b.r.Intn(4)), Timeout: tmo})
 			if err != nil {
 				b.fail("C03 v1 join.New: %v", err)
 				return
@@ -1243,7 +1372,7 @@ func (b *bb) joinSharedV1() {
 		}
 		for x, c := range seen {
 			if x < 1 || x > n {
-				b.fail("C03 two v1 join disciplines on one input (no timeout, input of capacity 8, elements 1..%d written, then closed): element %d was delivered %d time(s) but never written", n, x, c)
+				b.fail("C03 two v1 join disciplines on one input (timed loop: %v; input of capacity 8, elements 1..%d written, then closed): element %d was delivered %d time(s) but never written", round%2 == 1, n, x, c)
 				break
 			}
 			if c != 1 {
